@@ -362,7 +362,13 @@ static char f32u16[] = "cvttss2sil %xmm0, %eax; movzwl %ax, %eax";
 static char f32i32[] = "cvttss2sil %xmm0, %eax";
 static char f32u32[] = "cvttss2siq %xmm0, %rax";
 static char f32i64[] = "cvttss2siq %xmm0, %rax";
-static char f32u64[] = "cvttss2siq %xmm0, %rax";
+
+// cvttss2siq converts to a signed 64-bit integer, so a value of 2^63
+// or more is reduced by 2^63 first and the top bit is set afterwards.
+static char f32u64[] =
+  "mov $0x5f000000, %eax; movd %eax, %xmm1; comiss %xmm1, %xmm0; jae 1f; "
+  "cvttss2siq %xmm0, %rax; jmp 2f; "
+  "1: subss %xmm1, %xmm0; cvttss2siq %xmm0, %rax; btc $63, %rax; 2:";
 static char f32f64[] = "cvtss2sd %xmm0, %xmm0";
 static char f32f80[] = "movss %xmm0, -4(%rsp); flds -4(%rsp)";
 
@@ -373,7 +379,10 @@ static char f64u16[] = "cvttsd2sil %xmm0, %eax; movzwl %ax, %eax";
 static char f64i32[] = "cvttsd2sil %xmm0, %eax";
 static char f64u32[] = "cvttsd2siq %xmm0, %rax";
 static char f64i64[] = "cvttsd2siq %xmm0, %rax";
-static char f64u64[] = "cvttsd2siq %xmm0, %rax";
+static char f64u64[] =
+  "mov $0x43e0000000000000, %rax; movq %rax, %xmm1; comisd %xmm1, %xmm0; jae 1f; "
+  "cvttsd2siq %xmm0, %rax; jmp 2f; "
+  "1: subsd %xmm1, %xmm0; cvttsd2siq %xmm0, %rax; btc $63, %rax; 2:";
 static char f64f32[] = "cvtsd2ss %xmm0, %xmm0";
 static char f64f80[] = "movsd %xmm0, -8(%rsp); fldl -8(%rsp)";
 
@@ -390,7 +399,15 @@ static char f80u16[] = FROM_F80_1 "fistpl" FROM_F80_2 "movzwl -24(%rsp), %eax";
 static char f80i32[] = FROM_F80_1 "fistpl" FROM_F80_2 "mov -24(%rsp), %eax";
 static char f80u32[] = FROM_F80_1 "fistpq" FROM_F80_2 "mov -24(%rsp), %eax";
 static char f80i64[] = FROM_F80_1 "fistpq" FROM_F80_2 "mov -24(%rsp), %rax";
-static char f80u64[] = FROM_F80_1 "fistpq" FROM_F80_2 "mov -24(%rsp), %rax";
+
+// fistpq converts to a signed 64-bit integer as well: compare with 2^63,
+// subtract it if the value is not smaller, and set the top bit afterwards.
+static char f80u64[] =
+  "mov $0x5f000000, %eax; mov %eax, -4(%rsp); flds -4(%rsp); fxch %st(1); "
+  "fcomi %st(1), %st; setae %dl; jae 1f; fstp %st(1); jmp 2f; "
+  "1: fsub %st(1), %st; fstp %st(1); 2: "
+  FROM_F80_1 "fistpq" FROM_F80_2 "mov -24(%rsp), %rax; "
+  "movzbl %dl, %edx; shl $63, %rdx; xor %rdx, %rax";
 static char f80f32[] = "fstps -8(%rsp); movss -8(%rsp), %xmm0";
 static char f80f64[] = "fstpl -8(%rsp); movsd -8(%rsp), %xmm0";
 
